@@ -225,7 +225,10 @@ func init() {
 
 func runC02(c *fw.Ctx) {
 	stores := []string{"mem", "file"}
-	payloads := [][]byte{{}, []byte("x"), []byte("\x00\xff\n"), []byte("abcde")}
+	// (the last four look like the framing of some transport: gzip magic number, a trailing CR LF, text that looks like a multipart
+	// delimiter (not the one in use: a client picks a boundary that does not occur in the content), JSON)
+	payloads := [][]byte{{}, []byte("x"), []byte("\x00\xff\n"), []byte("abcde"),
+		[]byte("\x1f\x8b\x08\x00not really gzip"), []byte("line\r\n"), []byte("\r\n--not-the-boundary--\r\n"), []byte(`{"name":"other"}`)}
 	big := make([]byte, 2048)
 	for i := range big {
 		big[i] = byte(i*7 + i/256)
@@ -472,6 +475,30 @@ func runC02(c *fw.Ctx) {
 				if ok, _ := tryGCS(c, "C02", gcsCase{Store: store, Ops: ops}, c02Tag); ok {
 					c.Outcome("two-sessions")
 				}
+			}
+		}
+	}
+	// Part E': declared totals and positions beyond 2^31 and 2^32 (no payload of that size is needed to say so), and
+	// uploads that start after more sessions were abandoned than any session table is likely to hold
+	for _, store := range stores {
+		for hi, tot := range []int{2147483647, 2147483648, 3_000_000_000, 4294967296, 5_000_000_000} {
+			item++
+			if !c.Mine(item) {
+				continue
+			}
+			up := GOp{Kind: "Upload", Proto: "resumable", Bucket: "b1", Name: "huge/o", Data: []byte("abcd"), Meta: gcs.ObjMeta{ContentType: "application/octet-stream"},
+				Chunks: []GChunk{{Lo: 0, Hi: 2, Total: tot}, {Query: true, Total: tot}, {Lo: 2, Hi: 4, Total: tot}, {Query: true, Total: -1}}}
+			ops := append(append([]GOp(nil), setup...), up, GOp{Kind: "Upload", Proto: "resumable", Bucket: "b1", Name: "huge/o", Data: []byte("abcd"), Meta: gcs.ObjMeta{ContentType: "text/plain"}})
+			if ok, _ := tryGCS(c, "C02", gcsCase{Store: store, Ops: ops}, c02Tag); ok {
+				c.Outcome(fmt.Sprintf("huge-total:%d", hi))
+			}
+		}
+		item++
+		if c.Mine(item) {
+			ops := append(append([]GOp(nil), setup...), GOp{Kind: "ManySessions", Bucket: "b1", Name: "junk", GzN: 1100, Meta: gcs.ObjMeta{ContentType: "text/junk"}},
+				GOp{Kind: "Upload2", Bucket: "b1", Name: "sess/a", Data: []byte("first-session"), Meta: gcs.ObjMeta{ContentType: "text/first", Metadata: map[string]string{"session": "A"}}, Name2: "sess/b", Data2: []byte("second")})
+			if ok, _ := tryGCS(c, "C02", gcsCase{Store: store, Ops: ops, CheckFrom: len(ops) - 1}, c02Tag); ok {
+				c.Outcome("after-many-sessions")
 			}
 		}
 	}
